@@ -217,6 +217,9 @@ bool Instance::setup_environment(unsigned int flags) {
 
     env = new InterpreterEnv(stack, script, flags, *checker, sigver, &error);
     env->successor_script = successor_script;
+    // the pay-to-script-hash pattern is honoured where a scriptPubKey is: not in a scriptSig (a scriptPubKey follows), and
+    // not in a witness script or a tapscript, which consensus runs as they are
+    if (successor_script.size() || sigver != SigVersion::BASE) env->is_p2sh = false;
     env->pretend_valid_map = pretend_valid_map;
     env->pretend_valid_pubkeys = pretend_valid_pubkeys;
     // an empty script is not finished while a scriptPubKey or a taproot commitment check is still pending
